@@ -879,6 +879,10 @@ func (w *clientWorld) evaluate(res verifhook.Result, bubblePanic string) {
 			continue
 		}
 		a.ref = RefInterpret(a.stream[:a.delivered], last, true)
+		if a.ref.RetryOutOfBounds {
+			o.Inconclusive = true // retry value beyond 10^12 ms: outside the properties' bounds
+			return
+		}
 		evs := a.ref.Events
 		clean := a.endKind == 0 && a.delivered == len(a.stream) && a.cancelledAt < 0
 		if a.ref.FlushedAtEOF && !clean {
